@@ -4,6 +4,7 @@ takes the 1-d arrays of a batch of rank-0 statistics as coordinate lists."""
 import ast
 from translate import Unsupported, find_def
 from lib.qfun import A_qfun
+from lib.pat import match_def
 
 ME = 'fedjax/core/metrics.py'
 
@@ -23,6 +24,61 @@ def A_reduce_default_axis(qual):
       raise Unsupported(f'{qual}: default axis is not 0')
     return f'(* {qual}: default axis = 0 (checked) *)'
   return emit
+
+
+MEAN_CLASSES = ['Accuracy', 'TopKAccuracy', 'SequenceTokenCrossEntropyLoss', 'SequenceCrossEntropyLoss',
+                'SequenceTokenAccuracy', 'SequenceTokenTopKAccuracy', 'SequenceTruncationRate', 'SequenceTokenOOVRate',
+                'SequenceLength']
+SUM_CLASSES = ['SequenceCount']
+
+
+def emit_higher_rank_zeros(tree):
+  """ConfusionMatrix.zero: SumStat.new(zeros((n, n))): every entry is SumStat.new(0).
+  PerDomainMetric.zero: the base zero broadcast to (num_domains,) + shape: every entry is the base's zero entry."""
+  match_def(find_def(tree, 'ConfusionMatrix.zero'), '''
+def zero(self):
+  return SumStat.new(jnp.zeros((self.num_classes, self.num_classes)))
+''', 'ConfusionMatrix.zero')
+  match_def(find_def(tree, 'PerDomainMetric.zero'), '''
+def zero(self):
+  def broadcast_to(H_x):
+    return jnp.broadcast_to(H_x, (self.num_domains,) + H_x.shape)
+  return jax.tree_util.tree_map(broadcast_to, self.base.zero())
+''', 'PerDomainMetric.zero')
+  return ('Definition zero_ConfusionMatrix_entry : NanQ.t := (sumstat_new (NanQ.of_Q (0 # 1)%Q)).\n'
+          '(* PerDomainMetric.zero: broadcast of the base zero() (checked) *)')
+
+
+def emit_apply_mask(tree):
+  """apply_mask(mask, a, b): jnp.where with the mask expanded to the rank of the operands, i.e. a
+  selection on the LEADING dimension: row i of the result is row i of `a` where mask[i], else `b`
+  (broadcast).  Reading: a = list of rows, b = one row.  Lazy (where), so an unselected row is irrelevant."""
+  h = match_def(find_def(tree, 'apply_mask'), '''
+def apply_mask(H_mask, H_a, H_b):
+  H_rank = max(len(H_a.shape), len(H_b.shape))
+  return jnp.where(jnp.expand_dims(H_mask, tuple(range(1, H_rank))), H_a, H_b)
+''', 'apply_mask')
+  return (f'Definition apply_mask {{B : Type}} ({h["mask"]} : list bool) ({h["a"]} : list B) ({h["b"]} : B) : list B :=\n'
+          f'  map2 (fun (m : bool) x => if m then x else {h["b"]}) {h["mask"]} {h["a"]}.')
+
+
+def emit_evaluate_batch(tree):
+  """evaluate_batch: the per-row statistics are vmap(metric.evaluate_example) (handed to the Gallina
+  definition as `batch_stat`); with a mask every Stat field goes through apply_mask against
+  metric.zero(); the result is the reduce() of the rows.  `metric_zero` / `stat_reduce` are section
+  variables (the rank-K zero() and the reduce over the batch axis)."""
+  h = match_def(find_def(tree, 'evaluate_batch'), '''
+@functools.partial(jax.jit, static_argnums=0)
+def evaluate_batch(H_metric, H_ex, H_pred, H_mask=None):
+  H_stat = jax.vmap(H_metric.evaluate_example)(H_ex, H_pred)
+  if H_mask is not None:
+    H_stat = jax.tree_util.tree_map(functools.partial(apply_mask, H_mask), H_stat, H_metric.zero())
+  return H_stat.reduce()
+''', 'evaluate_batch')
+  st, mk = h['stat'], h['mask']
+  return (f'Definition evaluate_batch ({st} : list (list A)) ({mk} : option (list bool)) : list A :=\n'
+          f'  let {st} := match {mk} with Some {mk} => apply_mask {mk} {st} metric_zero | None => {st} end in\n'
+          f'  stat_reduce {st}.')
 
 
 MODULES = {
@@ -51,6 +107,15 @@ MODULES = {
             # zero() of the MeanStat-valued and SumStat-valued built-in metrics
             A_qfun('CrossEntropyLoss.zero', 'mean_metric_zero', ['self'], [], 'pairQ', calls=CALLS),
             A_qfun('SequenceTokenCount.zero', 'sum_metric_zero', ['self'], [], 'Q', calls=CALLS),
+            # zero() of every other built-in metric class (Proofs/C05_Proofs.v: all equal to the two above)
+            *[A_qfun(f'{c}.zero', f'zero_{c}', ['self'], [], 'pairQ', calls=CALLS) for c in MEAN_CLASSES],
+            *[A_qfun(f'{c}.zero', f'zero_{c}', ['self'], [], 'Q', calls=CALLS) for c in SUM_CLASSES],
+            emit_higher_rank_zeros,
+            emit_apply_mask,
+            lambda tree: ('Section batch_eval.\nContext {A : Type} (metric_zero : list A) '
+                          '(stat_reduce : list (list A) -> list A).'),
+            emit_evaluate_batch,
+            lambda tree: 'End batch_eval.',
         ],
     },
 }
